@@ -6,7 +6,7 @@ RUN_FRAME = ["interpreter.stack._stack[]", "interpreter.memory[]", "interpreter.
              "interpreter._opcodes", "@list.items:nodeowned", "@ast.lineno", "@iterator.pos"]
 STEP_FRAME = ["self.stack._stack[]", "self.memory[]", "self.module_body._list[]", "self._var_counter", "self._opcodes", "self.stack.opcode",
               "self._module", "@list.items:nodeowned", "@ast.lineno", "@ast.col_offset", "@iterator.pos"]
-ERR = ["ValueError", "IndexError", "KeyError", "NotImplementedError", "TypeError", "AttributeError"]
+ERR = ["ValueError", "IndexError", "KeyError", "NotImplementedError", "TypeError", "AttributeError", "OverflowError"]
 
 
 def register(K):
